@@ -1,8 +1,10 @@
 """In-memory file system with a crash point, installed over ``builtins.open`` / ``os.replace`` etc. for the
 file names a harness declares (everything else goes to the real file system).
 
-POSIX contract assumed: ``open(name, 'w')`` truncates at once, writes append in order and are durable as issued
-(worst case), ``os.replace`` is atomic, a crash keeps what was written so far.
+POSIX contract assumed: ``open(name, 'w')`` truncates at once; an open file is an inode that keeps receiving the
+writes of its handle after a rename; writes append in order and are either durable as issued (``buffered=False``) or held
+in the process buffer until ``flush``/``close`` (``buffered=True``: a crash loses them) -- a harness explores both;
+``os.replace`` is atomic; a crash keeps what is durable.
 """
 from __future__ import annotations
 
@@ -15,14 +17,26 @@ class Crash(BaseException):
     """the process stops here"""
 
 
+class _Node:
+    def __init__(self):
+        self.content = ''
+        self.pending = ''
+
+
 class MemFS:
-    def __init__(self, match):
+    def __init__(self, match, buffered=False):
         self.match = match  # callable(name) -> bool : handled in memory
-        self.files: dict[str, str] = {}
+        self.nodes: dict[str, _Node] = {}
+        self.buffered = buffered
         self.ops = 0
         self.crash_at = None
         self.log = []
         self._saved = None
+
+    @property
+    def files(self):
+        """durable content by name"""
+        return {k: v.content for k, v in self.nodes.items()}
 
     # ------------------------------------------------------------ ops
     def tick(self, what):
@@ -41,39 +55,39 @@ class MemFS:
             raise OSError('binary mode not modelled')
         if 'w' in mode:
             self.tick(('truncate', sname))
-            self.files[sname] = ''
-            return _Writer(self, sname)
+            self.nodes[sname] = _Node()
+            return _Writer(self, self.nodes[sname], sname)
         if 'a' in mode:
             self.tick(('open-append', sname))
-            self.files.setdefault(sname, '')
-            return _Writer(self, sname)
-        if sname not in self.files:
+            self.nodes.setdefault(sname, _Node())
+            return _Writer(self, self.nodes[sname], sname)
+        if sname not in self.nodes:
             raise FileNotFoundError(2, 'No such file or directory', sname)
-        return io.StringIO(self.files[sname])
+        return io.StringIO(self.nodes[sname].content)
 
     def replace(self, src, dst, *a, **k):
         s, d = str(os.fspath(src)), str(os.fspath(dst))
         if not (self.match(s) or self.match(d)):
             return self._saved['replace'](src, dst, *a, **k)
         self.tick(('replace', s, d))
-        if s not in self.files:
+        if s not in self.nodes:
             raise FileNotFoundError(2, 'No such file or directory', s)
-        self.files[d] = self.files.pop(s)
+        self.nodes[d] = self.nodes.pop(s)
 
     def remove(self, name, *a, **k):
         s = str(os.fspath(name))
         if not self.match(s):
             return self._saved['remove'](name, *a, **k)
         self.tick(('remove', s))
-        if s not in self.files:
+        if s not in self.nodes:
             raise FileNotFoundError(2, 'No such file or directory', s)
-        del self.files[s]
+        del self.nodes[s]
 
     def exists(self, name):
         s = str(os.fspath(name))
         if not self.match(s):
             return self._saved['exists'](name)
-        return s in self.files
+        return s in self.nodes
 
     # ------------------------------------------------------------ install
     def __enter__(self):
@@ -106,29 +120,42 @@ class _Fd:
 
 
 class _Writer:
-    def __init__(self, fs, name):
+    def __init__(self, fs, node, name):
         self.fs = fs
+        self.node = node
         self.name = name
         self.closed = False
 
     def write(self, s):
         s = str(s)
         self.fs.tick(('write', self.name, s))
-        self.fs.files[self.name] = self.fs.files.get(self.name, '') + s
+        if self.fs.buffered:
+            self.node.pending += s
+        else:
+            self.node.content += s
         return len(s)
 
     def flush(self):
-        pass
+        if self.node.pending:
+            self.fs.tick(('flush', self.name))
+            self.node.content += self.node.pending
+            self.node.pending = ''
 
     def fileno(self):
         return _Fd()
 
     def close(self):
+        if not self.closed:
+            self.flush()
         self.closed = True
 
     def __enter__(self):
         return self
 
     def __exit__(self, *exc):
+        # (a stop inside the block -- Crash -- does not flush: the process is gone)
+        if exc and exc[0] is not None and issubclass(exc[0], Crash):
+            self.closed = True
+            return False
         self.close()
         return False
